@@ -31,7 +31,8 @@ Inductive op :=
 | Remove (name : Z)
 | Clear
 | RunNow (name : Z)
-| Check (name : Z).
+| Check (name : Z)
+| Raise (kind : Z).      (* the test callback (or the outside caller) raises: kind 1 = KeyError, else another exception *)
 
 Inductive ev :=
 | EAdd (t u name ms cb : Z) (kw : kwargs)      (* a handle was scheduled at t for ms *)
@@ -40,6 +41,12 @@ Inductive ev :=
 | ECheck (name : Z) (b g : bool)               (* check(name) answered b; g: a live handle for name exists *)
 | EDict (names : list Z)                       (* keys of DelayManager.delays, in dict order *)
 | EOof                                         (* test callback at maximal nesting depth: script not run *)
+| EClear                                       (* clear() has returned: every delay added before is dead *)
+| EMode (code t : Z)                           (* owner (mode) lifecycle marker, see Owner.v; 1 = stop requested,
+                                                  3 = stop wound up: both directly after the manager's clear() *)
+| ERaise (kind : Z)                            (* an exception is raised; while it is the newest event it propagates *)
+| ECaught (by_ : Z)                            (* ... until caught: 0 by the loop's exception handler (handle run by the
+                                                  loop), 1 by run_now's `except KeyError`, 2 by the outside caller *)
 | EReject (code : Z).                          (* the history is not a possible behaviour of the loop *)
 
 Record state := mkS { now : Z; next : Z; dict : list entry; timers : list timer; log : list ev }.
@@ -103,15 +110,24 @@ Definition clear_one (st : state) (n : Z) : state :=
 
 Definition do_clear (st : state) : state :=
   let st1 := fold_left clear_one (map e_name (dict st)) st in
-  mkS (now st1) (next st1) [] (timers st1) (log st1).
+  mkS (now st1) (next st1) [] (timers st1) (EClear :: log st1).
 
 Definition callfn := Z -> Z -> kwargs -> bool -> state -> state.   (* u cb kw rn *)
+
+(* exceptions: an exception propagates while ERaise is the newest event of the log (nothing else is logged while it
+   unwinds: the remaining operations of every enclosing script are skipped) *)
+Definition raising (st : state) : option Z := match log st with ERaise k :: _ => Some k | _ => None end.
+Definition catch_all (by_ : Z) (st : state) : state :=
+  match raising st with Some _ => emit (ECaught by_) st | None => st end.
+(* run_now's `try: ... cb() except KeyError: pass` *)
+Definition catch_key (st : state) : state :=
+  match raising st with Some k => if k =? 1 then emit (ECaught 1) st else st | None => st end.
 
 (* run_now(name) *)
 Definition do_run_now (legacy : bool) (call : callfn) (n : Z) (st : state) : state :=
   match dict_find n (dict st) with
   | None => st
-  | Some e => call (e_tid e) (e_cb e) (if legacy then [] else e_kw e) true (do_remove n st)
+  | Some e => catch_key (call (e_tid e) (e_cb e) (if legacy then [] else e_kw e) true (do_remove n st))
   end.
 
 Definition do_check (n : Z) (st : state) : state :=
@@ -126,10 +142,16 @@ Definition exec_op (legacy : bool) (call : callfn) (o : op) (st : state) : state
   | Clear => do_clear st
   | RunNow n => do_run_now legacy call n st
   | Check n => do_check n st
+  | Raise k => emit (ERaise k) st
   end.
 
+(* a script: the operations after a raising one are not executed *)
 Definition exec_ops (legacy : bool) (call : callfn) (ops : list op) (st : state) : state :=
-  fold_left (fun s o => exec_op legacy call o s) ops st.
+  fold_left (fun s o => match raising s with Some _ => s | None => exec_op legacy call o s end) ops st.
+
+(* the operations of an external step: the outside caller catches what an operation raises and goes on *)
+Definition exec_ops_top (legacy : bool) (call : callfn) (ops : list op) (st : state) : state :=
+  fold_left (fun s o => catch_all 2 (exec_op legacy call o s)) ops st.
 
 (* the test callbacks: record the call, then run a script of further manager operations (re-entrantly);
    at nesting depth MAXD the script is not run *)
@@ -149,9 +171,21 @@ Fixpoint call_cb (legacy : bool) (scripts : list (list op)) (fuel : nat) : callf
              else exec_ops legacy (call_cb legacy scripts f) (script_of scripts cb) st1
     end.
 
-Definition MAXD : nat := 6%nat.
+Definition MAXD1 : nat := 5%nat.
+Definition MAXD : nat := S MAXD1.
 
-Inductive step := Ext (t : Z) (ops : list op) | Fire (u : Z).
+(* a callback run by a loop that dispatches late: the call is recorded with its scheduled-for instant (now st =
+   the handle's deadline), the script then runs at the observed instant t *)
+Definition call_cb_late (legacy : bool) (scripts : list (list op)) (t : Z) : callfn :=
+  fun u cb kw rn st =>
+    let st1 := emit (ECall (now st) u cb kw rn) st in
+    let st2 := mkS t (next st1) (dict st1) (timers st1) (log st1) in
+    if MAXLOG <? Z.of_nat (length (log st1)) then emit EOof st2
+    else exec_ops legacy (call_cb legacy scripts MAXD1) (script_of scripts cb) st2.
+
+(* Ext t ops: the outside world at t; Fire u: the loop runs handle u exactly at its deadline;
+   FireAt u t: the loop runs handle u at t >= deadline (a loop that wakes up late / jumps past several deadlines) *)
+Inductive step := Ext (t : Z) (ops : list op) | Fire (u : Z) | FireAt (u t : Z).
 
 Definition find_timer (u : Z) (ts : list timer) : option timer := find (id_is u) ts.
 
@@ -161,9 +195,22 @@ Definition fire (call : callfn) (u : Z) (st : state) : state :=
   | None => emit (EReject 1) st
   | Some tm =>
       if (now st <=? t_when tm) && forallb (fun t' => t_when tm <=? t_when t') (timers st)
-      then call u (t_cb tm) (t_kw tm) false
+      then catch_all 0 (call u (t_cb tm) (t_kw tm) false
              (mkS (t_when tm) (next st) (dict_del (t_name tm) (dict st))
-                  (filter (fun t => negb (id_is u t)) (timers st)) (log st))
+                  (filter (fun t => negb (id_is u t)) (timers st)) (log st)))
+      else emit (EReject 2) st
+  end.
+
+(* late dispatch: u is live, has the minimal deadline (asyncio moves due handles to the ready queue in deadline
+   order), t is not before the deadline and not before the present *)
+Definition fire_at (call : callfn) (u t : Z) (st : state) : state :=
+  match find_timer u (timers st) with
+  | None => emit (EReject 1) st
+  | Some tm =>
+      if (now st <=? t) && (t_when tm <=? t) && forallb (fun t' => t_when tm <=? t_when t') (timers st)
+      then catch_all 0 (call u (t_cb tm) (t_kw tm) false
+             (mkS (t_when tm) (next st) (dict_del (t_name tm) (dict st))
+                  (filter (fun t => negb (id_is u t)) (timers st)) (log st)))
       else emit (EReject 2) st
   end.
 
@@ -174,11 +221,12 @@ Definition do_step (legacy : bool) (scripts : list (list op)) (st : state) (s : 
   match s with
   | Ext t ops =>
       if ext_ok t st
-      then let st1 := exec_ops legacy (call_cb legacy scripts MAXD) ops
+      then let st1 := exec_ops_top legacy (call_cb legacy scripts MAXD) ops
                                (mkS t (next st) (dict st) (timers st) (log st)) in
            emit (EDict (map e_name (dict st1))) st1
       else emit (EReject 3) st
   | Fire u => fire (call_cb legacy scripts MAXD) u st
+  | FireAt u t => fire_at (call_cb_late legacy scripts t) u t st
   end.
 
 Definition init : state := mkS 0 0 [] [] [].
@@ -200,6 +248,10 @@ Definition ev_eqb (a b : ev) : bool :=
   | ECheck n b g, ECheck n' b' g' => (n =? n') && Bool.eqb b b' && Bool.eqb g g'
   | EDict l, EDict l' => zs_eqb l l'
   | EOof, EOof => true
+  | ERaise k, ERaise k' => k =? k'
+  | ECaught k, ECaught k' => k =? k'
+  | EClear, EClear => true
+  | EMode c t, EMode c' t' => (c =? c') && (t =? t')
   | EReject c, EReject c' => c =? c'
   | _, _ => false
   end.
@@ -213,7 +265,9 @@ Definition delay_out_eqb : list ev -> list ev -> bool := list_eqb ev_eqb.
 Record ptask := mkP { p_last : Z; p_ival : Z; p_cancelled : bool; p_handle : option Z; p_now : Z }.
 
 Inductive pev := PCalled (t : Z) | PReject.
-Inductive pstep := PRun | PCancel (t : Z) | PAt (t : Z).
+(* PRunAt t / PCancelAt t: the same on a loop that dispatches late: _run is entered at t >= its deadline (the call is
+   recorded with its scheduled-for instant), cancel() happens at an instant at which the handle may be overdue *)
+Inductive pstep := PRun | PCancel (t : Z) | PAt (t : Z) | PRunAt (t : Z) | PCancelAt (t : Z).
 
 Definition p_init (t0 ival : Z) : ptask := mkP t0 ival false (Some (t0 + ival)) t0.
 
@@ -243,6 +297,21 @@ Definition p_step (st : ptask * list pev) (s : pstep) : ptask * list pev :=
   | PAt t =>
       if p_time_ok p t
       then (mkP (p_last p) (p_ival p) (p_cancelled p) (p_handle p) t, out)
+      else (p, PReject :: out)
+  | PRunAt t =>
+      match p_handle p with
+      | None => (p, PReject :: out)
+      | Some w =>
+          if (p_now p <=? t) && (w <=? t) then
+            let last := p_last p + p_ival p in
+            if p_cancelled p
+            then (mkP last (p_ival p) true None t, out)
+            else (mkP last (p_ival p) false (Some (last + p_ival p)) t, PCalled w :: out)
+          else (p, PReject :: out)
+      end
+  | PCancelAt t =>
+      if p_now p <=? t
+      then (mkP (p_last p) (p_ival p) true (p_handle p) t, out)
       else (p, PReject :: out)
   end.
 
